@@ -395,10 +395,12 @@ class SimulationAlgorithm(BaseSimulationAlgorithm):
                 np.random.normal(0.0, 1.0, self.param_study["patient_number"]),
                 dtype=torch.float32,
             )
-            individual_parameters_from_model_parameters[f"sources_{i}"] = (
-                individual_parameters_from_model_parameters[f"sources_{i}"]
-                - individual_parameters_from_model_parameters[f"sources_{i}"].mean()
-            ) / individual_parameters_from_model_parameters[f"sources_{i}"].std()
+            if self.param_study["patient_number"] > 1:
+                # the sample std of a single draw is undefined (NaN): nothing to standardise
+                individual_parameters_from_model_parameters[f"sources_{i}"] = (
+                    individual_parameters_from_model_parameters[f"sources_{i}"]
+                    - individual_parameters_from_model_parameters[f"sources_{i}"].mean()
+                ) / individual_parameters_from_model_parameters[f"sources_{i}"].std()
 
         patient_source_values_matrix = torch.stack(
             [
